@@ -404,6 +404,11 @@ def gen_cases(props, tier, seed):
         for perm in itertools.permutations(ex):
             cases.append((list(perm), 0, 0, None))
             cases.append((list(perm), 7, 0, None))
+    # characters that are digits of some kind but not decimal digits (superscripts, circled digits): alphanumeric,
+    # never of the digit class
+    for ex in (['x\u00b2', 'y\u00b3'], ['m\u00b2', 'km\u00b2'], ['\u2460', '\u2461'], ['a\u00b9b', 'c\u2082d']):
+        for oi in (0, 1, 2):
+            cases.append((ex, oi, 0, None))
     # nothing to extract from (no example survives cleaning): early-return paths, also with a seed
     degenerate = [[], [''], ['', ' '], [' ']]
     base = degenerate + base
